@@ -1491,6 +1491,10 @@ class NumpyModel(object):
                 return self.new(x.shape, 'bool', lambda *idx: z3.BoolVal(False))
             return False
 
+        @reg('allclose')
+        def _allclose(I_, a, k):
+            return self.allclose(a, k)
+
         @reg('array_equal')
         def _array_equal(I_, a, k):
             A, B = a[0], a[1]
@@ -1509,6 +1513,22 @@ class NumpyModel(object):
             body = self.cast(A.fn(*idx), A.dtype, w) == self.cast(B.fn(*idx), B.dtype, w)
             e = z3.ForAll(idx, z3.Implies(rng, body)) if idx else body
             return I.mk(e, 'bool')
+
+    def allclose(self, a, k):
+        I = self.I
+        A, B = self.as_array(a[0]), self.as_array(a[1])
+        rtol = k.get('rtol', a[2] if len(a) > 2 else I.real(1e-05))
+        atol = k.get('atol', a[3] if len(a) > 3 else I.real(1e-08))
+        shape, (fa, fb) = self.broadcast([A, B])
+        Afn, Bfn = A.fn, B.fn
+        idx = [z3.Int('ac_i%d' % d) for d in range(len(shape))]
+        rng = z3.And(*[z3.And(0 <= i, i < self.dim_z(s_)) for i, s_ in zip(idx, shape)]) if idx else z3.BoolVal(True)
+        x = self.cast(Afn(*fa(idx)), A.dtype, 'float')
+        y = self.cast(Bfn(*fb(idx)), B.dtype, 'float')
+        ab = lambda e: z3.If(e < 0, -e, e)
+        body = ab(x - y) <= I.z(atol, 'real') + I.z(rtol, 'real') * ab(y)
+        self.ax('np.allclose: |a-b| <= atol + rtol*|b| elementwise (A-REAL)')
+        return I.mk(z3.ForAll(idx, z3.Implies(rng, body)) if idx else body, 'bool')
 
     def scalar_ufunc(self, name, x):
         from . import interp as M
